@@ -183,7 +183,7 @@ fn main() {
         let run_seed = mix(args.seed.wrapping_mul(0x9E3779B97F4A7C15) ^ idx.wrapping_mul(0xD6E8FEB86659FD93));
         let mut rng = Rng::new(run_seed);
         let res = if profile == "C15" || (profile == "C17" && rng.chance(1, 2)) {
-            special::run_special(profile, &mut rng, run_seed, &opts)
+            special::run_special(profile, &mut rng, run_seed, &opts, &args.noise, est_points)
         } else {
             let mut prog = gen::generate(profile, &mut rng, run_seed, args.miri);
             for i in 0..prog.ops.len() { let nest: Vec<usize> = prog.ops[i].body.iter().filter_map(|s| if let model::Step::Nest(c) = s { Some(*c) } else { None }).collect(); for c in nest { prog.ops[c].parent = Some(i); } }
